@@ -487,8 +487,10 @@ class PrivateKey:
             if raw[-1] != 1:
                 raise ValueError("Invalid WIF")
             raw = raw[:-1]
-        else:
+        elif len(raw) == 33:
             compressed = False
+        else:
+            raise ValueError("Invalid WIF")
         secret = big_endian_to_int(raw[1:])
         if raw[0] == 0xEF:
             network = "testnet"
